@@ -219,7 +219,8 @@ theorem rhelWalk_env_exact (pre post : List Layer) (a : Layer) (w : RhelWalk) {d
 theorem rhelFinalPkgs_envs_from (envs : List ((String × String) × Env)) (later : List Layer) (pkgs : List Pkg) (ir r : Report)
     (h : rhelFinalPkgs envs later pkgs ir = .ok r) (id : String) (es : List Env) (hes : aget id r.envs = some es)
     (e : Env) (he : e ∈ es) :
-    (∃ es0, aget id ir.envs = some es0 ∧ e ∈ es0) ∨ ∃ p ∈ pkgs, p.id = id ∧ penvGet p.db p.id envs = some e := by
+    (∃ es0, aget id ir.envs = some es0 ∧ e ∈ es0) ∨
+      ∃ p ∈ pkgs, p.id = id ∧ penvGet p.db p.id envs = some e ∧ rhelFound p later true = true := by
   induction pkgs generalizing ir with
   | nil => simp only [rhelFinalPkgs, Except.ok.injEq] at h; subst h; exact Or.inl ⟨es, hes, he⟩
   | cons q rest ih =>
@@ -231,7 +232,7 @@ theorem rhelFinalPkgs_envs_from (envs : List ((String × String) × Env)) (later
     · split at h
       · split at h
         · simp at h
-        · rename_i e0 hq
+        · rename_i hfound _ e0 hq
           rcases ih _ h with ⟨es0, h1, h2⟩ | ⟨p, hp, h2⟩
           · simp only [Report.addPkgEnv] at h1
             rw [aget_aappend] at h1
@@ -244,7 +245,7 @@ theorem rhelFinalPkgs_envs_from (envs : List ((String × String) × Env)) (later
                 | some old => simp [hg] at h3; exact Or.inl ⟨old, rfl, h3⟩
               · simp only [List.mem_singleton] at h3
                 subst h3
-                exact Or.inr ⟨q, List.mem_cons_self, hk, hq⟩
+                exact Or.inr ⟨q, List.mem_cons_self, hk, hq, hfound⟩
             · simp only [hk, if_false] at h1
               exact Or.inl ⟨es0, h1, h2⟩
           · exact Or.inr ⟨p, List.mem_cons_of_mem _ hp, h2⟩
@@ -255,7 +256,8 @@ theorem rhelFinalPkgs_envs_from (envs : List ((String × String) × Env)) (later
 theorem rhelFinal_envs_from (envs : List ((String × String) × Env)) (todo : List Layer) (ir r : Report)
     (h : rhelFinal envs todo ir = .ok r) (id : String) (es : List Env) (hes : aget id r.envs = some es)
     (e : Env) (he : e ∈ es) :
-    (∃ es0, aget id ir.envs = some es0 ∧ e ∈ es0) ∨ ∃ p ∈ allPkgs todo, p.id = id ∧ penvGet p.db p.id envs = some e := by
+    (∃ es0, aget id ir.envs = some es0 ∧ e ∈ es0) ∨
+      ∃ p ∈ allPkgs todo, p ∈ candidates todo ∧ p.id = id ∧ penvGet p.db p.id envs = some e := by
   induction todo generalizing ir with
   | nil => simp only [rhelFinal, Except.ok.injEq] at h; subst h; exact Or.inl ⟨es, hes, he⟩
   | cons a rest ih =>
@@ -264,12 +266,15 @@ theorem rhelFinal_envs_from (envs : List ((String × String) × Env)) (todo : Li
     | error f => simp [hx] at h
     | ok ir' =>
       simp only [hx] at h
-      rcases ih ir' h with ⟨es1, h1, h2⟩ | ⟨p, hp, h2⟩
-      · rcases rhelFinalPkgs_envs_from envs rest a.pkgs ir ir' hx id es1 h1 e h2 with h3 | ⟨p, hp, h3⟩
+      rcases ih ir' h with ⟨es1, h1, h2⟩ | ⟨p, hp, hc, h2⟩
+      · rcases rhelFinalPkgs_envs_from envs rest a.pkgs ir ir' hx id es1 h1 e h2 with h3 | ⟨p, hp, h3, h4, h5⟩
         · exact Or.inl h3
-        · exact Or.inr ⟨p, by simp [allPkgs, hp], h3⟩
-      · refine Or.inr ⟨p, ?_, h2⟩
-        simp only [allPkgs, List.flatMap_cons, List.mem_append]; exact Or.inr hp
+        · refine Or.inr ⟨p, by simp [allPkgs, hp], ?_, h3, h4⟩
+          simp only [candidates, List.mem_append]
+          exact Or.inl (List.mem_filter.2 ⟨hp, h5⟩)
+      · refine Or.inr ⟨p, ?_, ?_, h2⟩
+        · simp only [allPkgs, List.flatMap_cons, List.mem_append]; exact Or.inr hp
+        · simp only [candidates, List.mem_append]; exact Or.inr hc
 
 /-- one environment per reported package id: the final loop skips an id it has already reported -/
 def OneEnv (ir : Report) : Prop :=
@@ -363,7 +368,7 @@ theorem rhelCoalesce_env_exact {arts0 : List Layer} {r : Report} (h : rhelCoales
       e = walkEnv a (distIdOf (curAfter (firstDist (rhelShare arts0)) (pre ++ [a]))) e.db := by
   unfold rhelCoalesce at h
   simp only at h
-  rcases rhelFinal_envs_from _ _ _ _ h id es hes e he with ⟨es0, h0, _⟩ | ⟨p, hp, hpid, hget⟩
+  rcases rhelFinal_envs_from _ _ _ _ h id es hes e he with ⟨es0, h0, _⟩ | ⟨p, hp, _, hpid, hget⟩
   · simp [aget] at h0
   · obtain ⟨hc, henv⟩ := rhelInit_cur (rhelShare arts0)
     obtain ⟨pre, a, post, hdec, ha, hpre⟩ := first_layer_with (arts := rhelShare arts0) (db := p.db) (id := id) ⟨p, hp, rfl, hpid⟩
@@ -375,6 +380,59 @@ theorem rhelCoalesce_env_exact {arts0 : List Layer} {r : Report} (h : rhelCoales
     have hedb : e.db = p.db := by rw [Option.some.inj hex]; rfl
     refine ⟨pre, a, post, hdec, by rw [hedb]; exact ha, by rw [hedb]; exact hpre, ?_⟩
     rw [hedb]; exact Option.some.inj hex
+
+/-- what the final loop accepts is, by id and database, in the last layer that has packages -/
+theorem candidates_in_last (arts : List Layer) {p : Pkg} (hp : p ∈ candidates arts) :
+    ∃ q ∈ lastPkgs arts, q.id = p.id ∧ q.db = p.db := by
+  induction arts with
+  | nil => simp [candidates] at hp
+  | cons a rest ih =>
+    simp only [candidates, List.mem_append] at hp
+    simp only [lastPkgs]
+    by_cases hr : (lastPkgs rest).isEmpty = true
+    · have hr' : lastPkgs rest = [] := by simpa using hr
+      have hall := (lastPkgs_nil_iff rest).1 hr'
+      simp only [hr, if_true]
+      rcases hp with h | h
+      · exact ⟨p, (List.mem_filter.1 h).1, rfl, rfl⟩
+      · rw [candidates_nil hall] at h; simp at h
+    · simp only [hr, Bool.false_eq_true, if_false]
+      rcases hp with h | h
+      · have hf := (List.mem_filter.1 h).2
+        rw [rhelFound_eq] at hf
+        simp only [hr, Bool.false_eq_true, if_false] at hf
+        obtain ⟨q, hq, hm⟩ := List.any_eq_true.1 hf
+        simp only [sameIdDb, decide_eq_true_eq] at hm
+        exact ⟨q, hq, hm.1.symm, hm.2.symm⟩
+      · exact ih h
+
+/-- every environment of the rhel coalescer's report names a database in which the last package-bearing layer
+    holds the package -/
+theorem rhelCoalesce_env_in_last {arts0 : List Layer} {r : Report} (h : rhelCoalesce arts0 = .ok r)
+    {id : String} {es : List Env} (hes : aget id r.envs = some es) {e : Env} (he : e ∈ es) :
+    ∃ q ∈ lastPkgs arts0, q.id = id ∧ q.db = e.db := by
+  have hh := h
+  unfold rhelCoalesce at h
+  simp only at h
+  rcases rhelFinal_envs_from _ _ _ _ h id es hes e he with ⟨es0, h0, _⟩ | ⟨p, _, hc, hpid, hget⟩
+  · simp [aget] at h0
+  · obtain ⟨q, hq, hqid, hqdb⟩ := candidates_in_last _ hc
+    rw [lastPkgs_congr (rhelShare_core arts0)] at hq
+    -- the environment's database is the package's
+    obtain ⟨pre, a, post, _, _, _, hee⟩ := rhelCoalesce_env_exact hh hes he
+    obtain ⟨r', _, hinv, _⟩ := rhelCoalesce_ok (S := False) arts0
+    have hedb : e.db = p.db := by
+      -- from the walk: the environment stored under (p.db, id) has database p.db
+      have hw : WalkInv (rhelShare arts0) (List.foldl (fun m a => setRepos a.repos m) [] (rhelShare arts0))
+          (rhelWalk (rhelShare arts0) (rhelInit (rhelShare arts0))) := by
+        refine (rhelWalk_spec (rhelShare arts0) _ (rhelShare arts0) (rhelInit (rhelShare arts0))
+          (fun a ha => ⟨ha, fun x hx => foldl_setRepos_mem _ _ a ha x hx⟩) ?_).1
+        unfold rhelInit
+        cases hf : firstDist (rhelShare arts0) with
+        | none => exact ⟨by simp, by simp [penvGet]⟩
+        | some d => exact ⟨by intro d' hd'; cases hd'; simp [aget], by simp [penvGet]⟩
+      exact (hw.envs p.db p.id e hget).1
+    exact ⟨q, hq, hqid.trans hpid, by rw [hqdb, hedb]⟩
 
 /-! ### Red Hat repositories taint every layer -/
 
